@@ -77,6 +77,9 @@ pub struct WorldCfg {
 	pub p_copy_permuted: u8,
 	pub max_members: usize,
 	pub allow_dups: bool,
+	/// chance (per by-reference collection) that duplicates are left in even when
+	/// `allow_dups` is false: the checked constructor must then reject it
+	pub p_allow_dup: u8,
 	/// only these kinds (empty = all)
 	pub kinds: Vec<KindTag>,
 	/// only Vec containers (cheaper, everything nestable)
@@ -99,6 +102,7 @@ impl Default for WorldCfg {
 			p_copy_permuted: 60,
 			max_members: 5,
 			allow_dups: false,
+			p_allow_dup: 0,
 			kinds: vec![],
 			vec_only: false,
 		}
@@ -273,9 +277,10 @@ pub fn gen_world(src: &mut Src<'_>, cfg: &WorldCfg) -> WorldSpec {
 			}
 		}
 		let mut members: Vec<MemberSpec> = Vec::new();
+		let keep_dups = cfg.allow_dups || src.chance(cfg.p_allow_dup);
 		for m in cand_seq {
 			members.push(m);
-			if !cfg.allow_dups {
+			if !keep_dups {
 				let mut trial = w.clone();
 				trial.colls.push(CollSpec {
 					kind,
@@ -564,7 +569,12 @@ pub fn gen_seq(src: &mut Src<'_>, cfg: &SeqCfg) -> SeqCase {
 			}
 			9 => Step::IsPoisoned { target: gen_target(src, &world, sw.p_coll_target) },
 			10 => Step::ClearPoison { target: gen_target(src, &world, sw.p_coll_target) },
-			11 => Step::Debug { target: gen_target(src, &world, sw.p_coll_target) },
+			11 => {
+				let target = gen_target(src, &world, sw.p_coll_target);
+				let cap = if src.chance(90) { Some(src.pick(120) as u16) } else { None };
+				let payload = if src.chance(50) { 1 + src.pick(2) as u8 } else { 0 };
+				Step::Debug { target, cap, payload }
+			}
 			12 => Step::Accessors { target: gen_target(src, &world, sw.p_coll_target) },
 			_ => {
 				let kind = match src.pick(3) {
